@@ -46,7 +46,7 @@ def char_class_guard(F, rep, rule):
                 ok = all((o.kind == "param" and "separator" in o.path_str()) or o.kind == "const" for o in srcs)
                 site = "%s bb%d line %s" % (f.where(), bi, f.blocks[bi]["line"])
                 if ok: rep.ok(rule, "push_str of the separator / a constant", sample=site)
-                else: rep.bad(rule, "unrecognised-shape:push_str:" + p.replace("crate::", ""), "text appended to a sanitiser result that is neither the separator nor a constant: %r" % srcs, site)
+                else: rep.undecided(rule, "unrecognised-shape:push_str:" + p.replace("crate::", ""), "text appended to a sanitiser result that is neither the separator nor a constant: %r" % srcs, site)
         # filter/map closures that build strings: closures in the sanitiser calling char predicates without ascii
     rep.floor(rule, "char append sites in the sanitiser", n, 1)
 
